@@ -1,13 +1,16 @@
 (* C02 witnesses: the hypotheses about the special functions are consistent (a concrete
    instance over R), the hypotheses of the theorems are jointly satisfiable, and the
-   defect of the current code replayed in the bit-exact binary64 model. *)
+   recorded findings replayed in the bit-exact binary64 model with the oracle values scipy
+   returns: the rounding defect repaired in 9c8aefe (variant Current = the code before it),
+   and the four open ones (ratio overflow, lower-tail cancellation, last-bit non-monotonicity,
+   with_limits keeping the old message). *)
 From Coq Require Import Reals Lra List Bool.
 From Coq Require Import Floats.PrimFloat.
 From PAFCommon Require Import PyFloat.
 From PAFC02 Require Import Model Proofs ProofsQ ProofsB.
 Import ListNotations.
 
-(* ---------- 1. binary64: the finding, with the oracle values scipy returns ---------- *)
+(* ---------- 1. binary64: the rounding finding (code before 9c8aefe = Current; code as it is = Repaired) ---------- *)
 
 (* UniformPrior(-4.0, 1.5999999999999996).value_for(1 - 2**-53): erfinv(0x1.ffffffffffffep-1) and
    ndtr(0x1.06b48528cea52p+3) as returned by scipy 1.14; the code returns 1.6 > upper limit *)
@@ -36,6 +39,76 @@ Example float_current_tiny_width :
   exists v, prior_value_for FArith (FSpecial tbl_b) Current prior_b false 0x1.8p-1%float = Ok v
             /\ PrimFloat.ltb (p_hi prior_b) v = true.
 Proof. eexists. split; vm_compute; reflexivity. Qed.
+
+(* ---------- 1b. binary64: the open findings ---------- *)
+
+(* last-bit non-monotonicity: UniformPrior(0, 1e6), neighbouring unit values, scipy's ndtr(sqrt2*erfinv(.)) decreases *)
+Definition tbl_m : table :=
+  [(1%positive, (-0x1.67e0e3d79c382p-1)%float, (-0x1.797a65c252fd6p-1)%float);
+   (2%positive, (-0x1.0aead677ce203p+0)%float, 0x1.303e3850c78fep-3%float);
+   (1%positive, (-0x1.67e0e3d79c380p-1)%float, (-0x1.797a65c252fd5p-1)%float);
+   (2%positive, (-0x1.0aead677ce202p+0)%float, 0x1.303e3850c78fcp-3%float)].
+Definition prior_m : prior float := mkPrior Uniform 0%float 1%float 0%float 0x1.e848p+19%float.
+
+Example float_monotone_refuted :
+  exists v1 v2,
+    PrimFloat.ltb 0x1.303e3850c78fcp-3%float 0x1.303e3850c78fep-3%float = true /\
+    prior_value_for FArith (FSpecial tbl_m) Repaired prior_m false 0x1.303e3850c78fcp-3%float = Ok v1 /\
+    prior_value_for FArith (FSpecial tbl_m) Repaired prior_m false 0x1.303e3850c78fep-3%float = Ok v2 /\
+    PrimFloat.ltb v2 v1 = true.
+Proof. eexists. eexists. repeat split; vm_compute; reflexivity. Qed.
+
+(* ratio overflow: LogUniformPrior(1e-200, 1e200): log10(hi / lo) = log10(inf) = inf, the stack maps u = 0.5 to inf;
+   with the guarded scale (log10 hi - log10 lo = 400) it maps to 1.0.  Stated on the explicit stack so that it does
+   not depend on [loguniform_variant]. *)
+Definition tbl_r : table :=
+  [(4%positive, 0x1.87e92154ef7acp-665%float, (-0x1.9p+7)%float); (4%positive, infinity, infinity);
+   (4%positive, 0x1.4e718d7d7625ap+664%float, 0x1.9p+7%float); (1%positive, 0%float, 0%float);
+   (2%positive, 0%float, 0x1p-1%float); (5%positive, infinity, infinity); (5%positive, 0%float, 1%float)].
+Definition lo_r : float := 0x1.87e92154ef7acp-665%float.
+Definition hi_r : float := 0x1.4e718d7d7625ap+664%float.
+Definition stack_r (lv : lu_variant) : list (transform float) :=
+  [TPhi; TLinear (tlookup tbl_r 4%positive lo_r) (loguniform_scale FArith (FSpecial tbl_r) lv lo_r hi_r); TLog10].
+
+Example float_ratio_overflow_refuted :
+  fbits_eqb (loguniform_scale FArith (FSpecial tbl_r) LUCurrent lo_r hi_r) infinity = true /\
+  fbits_eqb (msg_inverse_transform FArith (FSpecial tbl_r) (stack_r LUCurrent)
+               (normal_value_for FArith (FSpecial tbl_r) 0%float 1%float 0x1p-1%float)) infinity = true /\
+  post FArith Repaired (mkPrior LogUniform 0%float 1%float lo_r hi_r) false infinity = LimitExc.
+Proof. repeat split; vm_compute; reflexivity. Qed.
+
+Example float_ratio_guard_repairs :
+  fbits_eqb (loguniform_scale FArith (FSpecial tbl_r) LURatioGuard lo_r hi_r) 0x1.9p+8%float = true /\
+  post FArith Repaired (mkPrior LogUniform 0%float 1%float lo_r hi_r) false
+       (msg_inverse_transform FArith (FSpecial tbl_r) (stack_r LURatioGuard)
+          (normal_value_for FArith (FSpecial tbl_r) 0%float 1%float 0x1p-1%float)) = Ok 1%float.
+Proof. split; vm_compute; reflexivity. Qed.
+
+(* lower-tail cancellation: GaussianPrior(0, 1).value_for(1e-17): 1 - 2*(1 - u) = -1, erfinv(-1) = -inf *)
+Example float_lower_tail_refuted :
+  prior_value_for FArith (FSpecial [(1%positive, (-1)%float, neg_infinity)]) Repaired
+                  (mkPrior Gaussian 0%float 1%float neg_infinity infinity) false 0x1.70ef54646d497p-57%float
+  = Ok neg_infinity.
+Proof. vm_compute. reflexivity. Qed.
+
+(* with_limits keeps the old message: UniformPrior(0,1).with_limits(0.2, 0.4) raises at u = 0.5 (declared quantile 0.3)
+   and returns 0.3 at u = 0.3 (declared quantile 0.26) *)
+Definition tbl_w : table :=
+  [(1%positive, 0%float, 0%float); (2%positive, 0%float, 0x1p-1%float);
+   (1%positive, (-0x1.9999999999998p-2)%float, (-0x1.7bb4df2d20c8ep-2)%float);
+   (2%positive, (-0x1.0c7e39582c5fap-1)%float, 0x1.3333333333334p-2%float)].
+Definition pm_w : prior float := mkPrior Uniform 0%float 1%float 0%float 1%float.
+Definition pg_w : prior float := mkPrior Uniform 0%float 1%float 0x1.999999999999ap-3%float 0x1.999999999999ap-2%float.
+
+Example float_with_limits_keeps_message :
+  dprior_value_for FArith (FSpecial tbl_w) Repaired pm_w pg_w false 0x1p-1%float = LimitExc /\
+  dprior_value_for FArith (FSpecial tbl_w) Repaired pm_w pg_w false 0x1.3333333333333p-2%float = Ok 0x1.3333333333333p-2%float.
+Proof. split; vm_compute; reflexivity. Qed.
+
+(* a prior derived from itself is the prior *)
+Example derived_from_itself : forall (var : variant) (p : prior float) (t : table) (ig : bool) (u : float),
+  dprior_value_for FArith (FSpecial t) var p p ig u = prior_value_for FArith (FSpecial t) var p ig u.
+Proof. reflexivity. Qed.
 
 (* a pinned pair of the repository's own tests: UniformPrior(0, 1).value_for(0.25) = 0.25 *)
 Definition tbl_c : table :=
